@@ -7,7 +7,7 @@ V = os.path.dirname(os.path.dirname(os.path.abspath(__file__)))
 CHECKS = {
  "C01": dict(level="exploration", design="DESIGN.md §4 C01",
    technique="property-based testing: generated positions (proptest-driven byte decoders + libFuzzer) vs independent reference move generator (differential), plus mirror metamorphic relation",
-   text="Generated-input search: ~140k (quick) / millions (thorough) valid positions from playouts, arbitrary placements and constructed motifs; the engine's move multiset and check test must equal an independent perft-validated reference. Exploration is the right level: the domain (~10^44 positions) cannot be enumerated, but an exact executable oracle exists. Plus the ENUMERATED check-geometry grid (336k sparse constructions: every kind of check on every line, every ep pin; 1.09 M positions in which such a check has to be answered).",
+   text="Generated-input search: ~140k (quick) / millions (thorough) valid positions from playouts, arbitrary placements and constructed motifs; the engine's move multiset and check test must equal an independent perft-validated reference. Exploration is the right level: the domain (~10^44 positions) cannot be enumerated, but an exact executable oracle exists. Plus the ENUMERATED check-geometry grid (336k sparse constructions: every kind of check on every line, every ep pin; 1.09 M positions in which such a check has to be answered). Occupancy twins (promotion siblings, exchanged kinds) are asked on one generator in interleaved order (check test of one, move list of the other).",
    note="Trusted: refchess (validated against published perft totals and breakdowns at every start); positions reach the engine through FEN text."),
  "C02": dict(level="exploration", design="DESIGN.md §4 C02",
    technique="property-based testing: lock-step model-based comparison of successor positions against a reference model over generated move histories",
@@ -19,20 +19,20 @@ CHECKS = {
    note="Assumes bits off the rays cannot matter (exercised with noise, not proved); between(a,a) is outside the property."),
  "C14": dict(level="exploration", design="DESIGN.md §4 C14",
    technique="property-based testing of algebraic laws (purity under evaluation order, antisymmetry, mirror symmetry, bound) over generated positions and evaluation sequences",
-   text="Sequences of evaluations on one long-lived evaluator compared with fresh evaluators; exact antisymmetry and mirror symmetry; |eval| < 32767 with the measured maximum reported; includes an extreme-material family.",
+   text="Sequences of evaluations on one long-lived evaluator compared with fresh evaluators; exact antisymmetry and mirror symmetry; |eval| < 32767 with the measured maximum reported; includes an extreme-material family. Enumerated part 'material': every material signature with up to three men besides the king on each side, 60 placements each, rows through one evaluator.",
    note="'Well inside the window' is judged by the necessary condition |eval| < 32767."),
  "C15": dict(level="exploration", design="DESIGN.md §4 C15",
    technique="model-based (state-machine) property testing: generated store/retrieve histories on near-colliding key universes checked after every operation against an observational model of exactly the statement (a lookup may return nothing at any time; nothing else may differ)",
-   text="Op histories up to 400 ops on near-colliding key universes; every observable retrieve compared with the model after every op.",
+   text="Op histories up to 400 ops on near-colliding key universes; every observable retrieve compared with the model after every op. Long histories (over a million distinct keys) with tracked keys; never-stored probes include 0, MAX, 1, 2^63.",
    note="Rules: never-stored key has nothing; between stores a key shows its last observed entry or nothing (and stays nothing); a store onto nothing or depth <= new depth is retrievable at once; a store onto a deeper entry leaves it. A forgetting (bounded) table is not a violation."),
 
  "C04": dict(level="exploration", design="DESIGN.md §4 C04",
    technique="property-based testing: generated position-command histories through the real command handler vs reference model position (round trip through FEN text and UCI move lists)",
-   text="Histories of 1..3 position commands (startpos or reference-written six-field FEN with counters a real game can reach — clock never above the plies played, often exactly on that bound — plus reference-legal move lists up to 250 plies with castles, ep and under-promotions), with ucinewgame/isready between them and later commands repeating or continuing the previous one; the engine's board after every command must equal the reference position.",
+   text="Histories of 1..3 position commands (startpos or reference-written six-field FEN with counters a real game can reach — clock never above the plies played, often exactly on that bound — plus reference-legal move lists up to 250 plies with castles, ep and under-promotions), with ucinewgame/isready between them and later commands repeating or continuing the previous one; the engine's board after every command must equal the reference position. Enumerated parts: 'grid-moves' (grid positions followed by one move: every castle, en-passant capture, promotion letter, double push, corner capture) and 'castle-lookalikes' (moves spelt like a castle made by a rook or queen); a quarter of the commands after a game with a promotion re-letter that promotion.",
    note="Trusted: refchess; hooks verif_handle_command/verif_board only expose the private handler and board."),
  "C05": dict(level="exploration", design="DESIGN.md §4 C05, §3.3",
    technique="differential property-based testing: engine search vs definitional plain-minimax reference (no pruning/ordering/caching) over an independent rules model, exact integer comparison, plus audit of every cached table entry as a (depth,bound,score) claim",
-   text="Generated small positions, iterative searches depth 1..3 and fixed-depth searches 4..5 on a fresh engine; score must equal the reference minimax value exactly (won/lost as classes), the move must attain it, and every table entry left behind must be a true claim. Leaf values come from definitional quiescence minimax when that tree is finite and from an independent alpha-beta reference (cross-checked against the definitional one) otherwise.",
+   text="Generated small positions, iterative searches depth 1..3 and fixed-depth searches 4..5 on a fresh engine; score must equal the reference minimax value exactly (won/lost as classes), the move must attain it, and every table entry left behind must be a true claim. Leaf values come from definitional quiescence minimax when that tree is finite and from an independent alpha-beta reference (cross-checked against the definitional one) otherwise. Enumerated parts: K+P v K promotion grid; positions of the check-geometry grid and their boxed mates at depth 1..3.",
    note="Trusted: refchess, the engine's evaluation as leaf scorer (C14), the soundness argument for the alpha-beta leaf reference in DESIGN.md §3.3. Cases over the reference node cap or with deeper-entry reuse are excluded and counted."),
  "C06": dict(level="fault_enumeration", design="DESIGN.md §4 C06",
    technique="fault-point enumeration inside a property-based test: the deadline is a generated/enumerated node count (hook), every expiry point of small searches is tried; oracle = reference minimax + table-claim audit + history snapshot",
@@ -40,11 +40,11 @@ CHECKS = {
    note="Deadline expressed in nodes via the SearchTimer hook (at node k the timer's own limit becomes zero; the engine's real deadline test decides). Reference as in C05."),
  "C07": dict(level="fault_enumeration", design="DESIGN.md §4 C07",
    technique="fault-point enumeration/sampling of deadline node counts (stateful: optional earlier searches on the same engine) with an invariant on passive instrumentation counters (observation latency, work after the expiry became observable), incl. constructed explosive positions; plus black-box property testing of the real binary under a real clock judged on CPU time consumed after the budget",
-   text="Node-count deadlines enumerated for small searches and sampled log-uniformly up to 300k (3M thorough) on middlegames and explosive quiescence shapes, on fresh engines and after earlier unlimited searches on the same engine; the first poll after the expiry must come within 4096 nodes, at most 256 nodes may follow, and the search must return (hard cap turns a runaway into a caught panic). Black-box layer: go movetime T / depth 64 movetime T / a clock with T left (T 0..300 ms) on the real binary, optionally after an earlier search in the process: CPU time consumed between go and bestmove must stay below T + 300 ms. Earlier searches in the process include depth-limited ones that leave a move time or clock of their own unused.",
+   text="Node-count deadlines enumerated for small searches and sampled log-uniformly up to 300k (3M thorough) on middlegames and explosive quiescence shapes, on fresh engines and after earlier unlimited searches on the same engine; the first poll after the expiry must come within 4096 nodes, at most 256 nodes may follow, and the search must return (hard cap turns a runaway into a caught panic). Black-box layer: go movetime T / depth 64 movetime T / a clock with T left (T 0..300 ms) on the real binary, optionally after an earlier search in the process: CPU time consumed between go and bestmove must stay below T + 300 ms. Earlier searches in the process include depth-limited ones that leave a move time or clock of their own unused. In-process earlier searches may themselves have been cut off by a deadline (small, or after a million nodes and more); go lines may carry standard tokens the engine does not implement (nodes, movestogo, mate).",
    note="Node-count formulation via a passive hook (the engine's own deadline test decides). The black-box verdict uses CPU time of the single-threaded process (a lower bound of wall-clock time), never wall-clock time itself."),
  "C11": dict(level="exploration", design="DESIGN.md §4 C11",
    technique="property-based testing: metamorphic relations on the hash (transposing move orders and FEN-vs-play must be equal; single-component flips must differ) and population collision check, under several fresh key draws",
-   text="Commuting move-order pairs verified equal by the reference, positions by FEN vs by play with different counters, single-feature flips through the public Board API, and pools of >=10^4 positions per worker; each under 8 (64 thorough) independent ZobristTable::new() draws.",
+   text="Commuting move-order pairs verified equal by the reference, positions by FEN vs by play with different counters, single-feature flips through the public Board API, and pools of >=10^4 positions per worker; each under 8 (64 thorough) independent ZobristTable::new() draws. Enumerated part 'component-pairs': for every pair of components (man on a square, castling right, en-passant square, side to move: ~200 000 pairs with a pair of valid positions) two positions differing in exactly those two must hash differently.",
    note="Keys come from thread_rng and cannot be seeded; inequality verdicts carry a 2^-64 coincidence risk; failing pairs are re-checked under 8 fresh draws."),
  "C12": dict(level="exploration", design="DESIGN.md §4 C12",
    technique="property-based testing: metamorphic independence (opponent clock, token order) and bound check on the budget produced by the real go parser (hook)",
@@ -61,11 +61,11 @@ CHECKS = {
    note="Layer A observes the Option<Move> from which handle_go_command prints bestmove; node budgets (hook) stand for wall-clock budgets."),
  "C08": dict(level="exploration", design="DESIGN.md §4 C08",
    technique="property-based testing with a validity-predicate oracle: constructed mate-in-one and allows-mate-in-one positions (verified by the reference), engine answer checked against Mates(p) / Allows(p)",
-   text="Thousands of positions with a verified mate in one (heavy-piece constructions, retractions from generated checkmates, perturbed mate shapes) searched at depth 1..4, and positions with a verified mix of moves that do and do not allow a mate in one searched at depth 2..3; the predicate, not one expected move, is checked.",
+   text="Thousands of positions with a verified mate in one (heavy-piece constructions, retractions from generated checkmates, perturbed mate shapes) searched at depth 1..4, and positions with a verified mix of moves that do and do not allow a mate in one searched at depth 2..3; the predicate, not one expected move, is checked. Enumerated / searched families: 'grid-mates' (every kind of checking move of the check-geometry grid turned into a mate by boxing the king in, also with a free capture on the board), 'corner-mates' (K+minor(s) v K(+1), both families), 'only-castle-mates' (seeded search for positions in which castling is the only mate in one).",
    note="Mates/Allows computed by refchess; fresh Searcher per search; searches over the node watchdog are excluded and counted."),
  "C09": dict(level="exploration", design="DESIGN.md §4 C09",
    technique="property-based testing over generated game histories with controlled repetition multiplicities; oracle = occurrence count in the reference history combined with reference quiescence values (depth-1 value equation), through the real position/go command path",
-   text="Histories built from prefixes, 0..3 shuffle cycles, long reversible excursions and partial cycles (with lost rights, irreversible moves, earlier position commands that must not count, and the final position given again as a bare command whose history is that one position); the engine's depth-1 score after 'position ... / go depth 1' must equal max over moves of (seen twice before ? 0 : real value). Part 'deep': go depth 2..3, every completed iteration must report the plain-minimax value in which any position below the root already seen twice is worth 0. Part 'veteran': the depth-1 oracle on an engine whose tables have grown to hundreds of thousands of entries through heavy searches of other positions.",
+   text="Histories built from prefixes, 0..3 shuffle cycles, long reversible excursions and partial cycles (with lost rights, irreversible moves, earlier position commands that must not count, and the final position given again as a bare command whose history is that one position); the engine's depth-1 score after 'position ... / go depth 1' must equal max over moves of (seen twice before ? 0 : real value). Part 'deep': go depth 2..3, every completed iteration must report the plain-minimax value in which any position below the root already seen twice is worth 0. Part 'veteran': the depth-1 oracle on an engine whose tables have grown to hundreds of thousands of entries through heavy searches of other positions. Part 'interrupted': the oracle (depth 1, or the deep one at depth 2..3) after searches of the judged position were cut off by a deadline, no position command in between. Enumerated part 'two-components': 1024 histories in which a position comes back without its en-passant square and without castling rights.",
    note="Successors whose count depends on the ep convention are excluded; reference quiescence as in C05."),
  "C13": dict(level="exploration", design="DESIGN.md §4 C13",
    technique="differential testing between independent runs of the real process (each with fresh random keys) and metamorphic fresh-equivalence for ucinewgame, over generated depth-limited command scripts",
